@@ -13,6 +13,8 @@
 //!  * `print!/println!/eprintln!` only write to the terminal: removed; a `let`
 //!    whose variable is afterwards unused and whose initialiser only calls
 //!    `len/to_string/name` is display-only and removed with them;
+//!  * (type ascriptions on other `let`s are dropped; an integer-literal `let` WITH a type is
+//!    refused: its width decides when a count wraps)
 //!  * an un-annotated `let mut c = <int>` that is only `+=`-ed, compared and
 //!    printed is an `i32` (Rust's integer fallback); the counters become the
 //!    fields of a state record threaded through the loop;
@@ -64,8 +66,16 @@ impl VisitMut for Clean {
         b.stmts.retain(|s| !is_print_stmt(s));
         for s in b.stmts.iter_mut() {
             if let Stmt::Local(l) = s {
+                // a type ascription on an integer-literal `let` (a counter) decides its width
+                // and overflow behaviour: it is kept, and `run_tests` refuses it below
+                let int_init = matches!(
+                    l.init.as_ref().map(|i| &*i.expr),
+                    Some(Expr::Lit(syn::ExprLit { lit: syn::Lit::Int(_), .. }))
+                );
                 if let Pat::Type(pt) = &l.pat {
-                    l.pat = (*pt.pat).clone();
+                    if !int_init {
+                        l.pat = (*pt.pat).clone();
+                    }
                 }
             }
         }
@@ -579,6 +589,13 @@ fn run_tests(testing: &syn::File) -> R {
     for (i, s) in f.block.stmts.iter().enumerate() {
         match s {
             Stmt::Local(l) => {
+                if let Pat::Type(pt) = &l.pat {
+                    return Err(format!(
+                        "run_tests: counter `{}` has the explicit type `{}`: the model's counters are i32 (integer fallback); another width changes when the count wraps",
+                        pt.pat.to_token_stream(),
+                        pt.ty.to_token_stream()
+                    ));
+                }
                 let Pat::Ident(pi) = &l.pat else {
                     return Err("run_tests: unsupported let pattern".into());
                 };
